@@ -1,5 +1,11 @@
 package rel
 
+import (
+	"context"
+
+	"github.com/arr-ai/wbnf/parser"
+)
+
 // C03 — values are immutable: deriving new values never changes existing ones.
 
 func verifNondetChar() rune {
@@ -91,4 +97,111 @@ func VerifC03BytesBranching() {
 	if verifInPlaceAppends() > 0 {
 		verifCover("append-reused-capacity")
 	}
+}
+
+// verifRelSnapshot lists a relation's rows as name -> value maps (attribute names are concrete).
+func verifRelSnapshot(s Set) []map[string]int {
+	var out []map[string]int
+	for e := s.Enumerator(); e.MoveNext(); {
+		t := e.Current().(Tuple)
+		row := map[string]int{}
+		for a := t.Enumerator(); a.MoveNext(); {
+			name, v := a.Current()
+			row[name] = int(v.(Number))
+		}
+		out = append(out, row)
+	}
+	return out
+}
+
+func verifSameSnapshot(x, y []map[string]int) bool {
+	if len(x) != len(y) {
+		return false
+	}
+	ok := true
+	for i := range x {
+		if len(x[i]) != len(y[i]) {
+			return false
+		}
+		for k, v := range x[i] {
+			w, has := y[i][k]
+			if !has {
+				return false
+			}
+			ok = verifAnd(ok, v == w)
+		}
+	}
+	return ok
+}
+
+// verif:bound VerifC03JoinBranching j = A<&>B (3 attributes, 1 row), then j<&>C and j<&>D from the same parent with a new attribute (same or different name), cells symbolic integers in [0,3]
+// verif:cover VerifC03JoinBranching both-joined
+func VerifC03JoinBranching() {
+	ctx := context.Background()
+	mk := func(heading []string, vals []int) Set {
+		attrs := make([]Attr, len(heading))
+		for i, h := range heading {
+			attrs[i] = NewAttr(h, NewNumber(float64(vals[i])))
+		}
+		return MustNewSet(NewTuple(attrs...))
+	}
+	a, b, c := verifNondetIntIn(0, 3), verifNondetIntIn(0, 3), verifNondetIntIn(0, 3)
+	d1, d2 := verifNondetIntIn(0, 3), verifNondetIntIn(0, 3)
+	A := mk([]string{"a", "b"}, []int{a, b})
+	B := mk([]string{"b", "c"}, []int{b, c})
+	jv, err := NewJoinExpr(parser.Scanner{}, A, B).Eval(ctx, EmptyScope)
+	verifAssert("join-ok", err == nil)
+	if err != nil {
+		return
+	}
+	j := jv.(Set)
+	snapJ := verifRelSnapshot(j)
+	second := "d"
+	if verifChoice(2) == 1 {
+		second = "e"
+	}
+	C := mk([]string{"a", "d"}, []int{a, d1})
+	D := mk([]string{"a", second}, []int{a, d2})
+	j1v, err := NewJoinExpr(parser.Scanner{}, j, C).Eval(ctx, EmptyScope)
+	verifAssert("join1-ok", err == nil)
+	if err != nil {
+		return
+	}
+	snapJ1 := verifRelSnapshot(j1v.(Set))
+	// further observers of j1: membership and equality against an independently built value
+	row1 := NewTuple(NewAttr("a", NewNumber(float64(a))), NewAttr("b", NewNumber(float64(b))),
+		NewAttr("c", NewNumber(float64(c))), NewAttr("d", NewNumber(float64(d1))))
+	fresh := MustNewSet(row1)
+	hasBefore := j1v.(Set).Has(row1)
+	eqBefore := fresh.Equal(j1v)
+	j2v, err := NewJoinExpr(parser.Scanner{}, j, D).Eval(ctx, EmptyScope)
+	verifAssert("join2-ok", err == nil)
+	if err != nil {
+		return
+	}
+	if j1v.(Set).Count() == 1 && j2v.(Set).Count() == 1 {
+		verifCover("both-joined")
+	}
+	var nowJ, nowJ1 []map[string]int
+	p := verifTry(func() {
+		nowJ = verifRelSnapshot(j)
+		nowJ1 = verifRelSnapshot(j1v.(Set))
+	})
+	verifAssert("values-still-readable", !p)
+	if p {
+		return
+	}
+	verifAssert("parent-unchanged", verifSameSnapshot(snapJ, nowJ))
+	verifAssert("sibling-unchanged", verifSameSnapshot(snapJ1, nowJ1))
+	var hasAfter, eqAfter bool
+	p = verifTry(func() {
+		hasAfter = j1v.(Set).Has(row1)
+		eqAfter = fresh.Equal(j1v)
+	})
+	verifAssert("sibling-still-usable", !p)
+	if p {
+		return
+	}
+	verifAssert("sibling-membership-unchanged", hasBefore == hasAfter)
+	verifAssert("sibling-equality-unchanged", eqBefore == eqAfter)
 }
